@@ -1,18 +1,532 @@
+// vdrv-idem is the Go side of check C06 (idempotency classifier).
+//
+//	vdrv-idem table -in rows.ndjson -out result.json [-mutants N]
+//	    renders every abstract sentence exported by TLC from spec/Idempotency.tla into CQL text in
+//	    several spellings, calls the real parser.IsQueryIdempotent on each and compares with the
+//	    expected class of the row (F = must be false, T = must be true, O = open: stability only);
+//	    then feeds byte-level mutants of the rendered texts to IsQueryIdempotent / IsQueryHandled
+//	    (totality: returns, no panic, parse error => not idempotent).
+//	vdrv-idem classify -in texts.json -out verdicts.json
+//	    classifies the given texts (replay of a recorded violation).
+//	vdrv-idem deep -out result.json [-depth N] [-forms "[,(,{,cast,call,udt"]
+//	    totality on deeply nested input; every probe runs in a child process because a stack
+//	    overflow of the Go runtime cannot be recovered.
+//
+// The expected verdicts come from TLC; nothing in this file decides what is idempotent.
 package main
 
 import (
-	"bufio"
+	"encoding/json"
+	"flag"
 	"fmt"
 	"os"
+	"runtime"
+	"sort"
+	"strings"
+	"sync"
+	"sync/atomic"
+	"time"
 
 	"github.com/datastax/cql-proxy/parser"
+
+	"verif/hutil"
 )
 
 func main() {
-	sc := bufio.NewScanner(os.Stdin)
-	for sc.Scan() {
-		q := sc.Text()
-		id, err := parser.IsQueryIdempotent(q)
-		fmt.Printf("%-6v %-60q err=%v\n", id, q, err)
+	if len(os.Args) < 2 {
+		fmt.Fprintln(os.Stderr, "usage: vdrv-idem table|classify ...")
+		os.Exit(2)
 	}
+	var err error
+	switch os.Args[1] {
+	case "table":
+		err = cmdTable(os.Args[2:])
+	case "classify":
+		err = cmdClassify(os.Args[2:])
+	case "deep":
+		err = cmdDeep(os.Args[2:])
+	case "deepchild":
+		err = cmdDeepChild(os.Args[2:])
+	default:
+		err = fmt.Errorf("unknown command %q", os.Args[1])
+	}
+	if err != nil {
+		fmt.Fprintln(os.Stderr, "vdrv-idem:", err)
+		os.Exit(3)
+	}
+}
+
+// ---------------------------------------------------------------------------------- rows
+
+type Node struct {
+	K string  `json:"k"`
+	A string  `json:"a"`
+	C []*Node `json:"c"`
+}
+
+type Witness struct {
+	Path []int  `json:"path"`
+	Why  string `json:"why"`
+}
+
+type Row struct {
+	Ast  *Node     `json:"ast"`
+	Cls  string    `json:"cls"`
+	Wit  []Witness `json:"wit"`
+	Cost int       `json:"cost"`
+}
+
+// compact one-line form of an abstract sentence (for reports)
+func (n *Node) String() string {
+	var b strings.Builder
+	n.write(&b)
+	return b.String()
+}
+
+func (n *Node) write(b *strings.Builder) {
+	b.WriteString(n.K)
+	if n.A != "" {
+		b.WriteString(":" + n.A)
+	}
+	if len(n.C) > 0 {
+		b.WriteByte('(')
+		for i, c := range n.C {
+			if i > 0 {
+				b.WriteByte(' ')
+			}
+			c.write(b)
+		}
+		b.WriteByte(')')
+	}
+}
+
+// ---------------------------------------------------------------------------------- the call under test
+
+type verdict struct {
+	Idem   bool
+	Err    string
+	Panic  string
+	Millis int64
+}
+
+var (
+	inflight [64]atomic.Int64
+	inText   [64]atomic.Value
+)
+
+func classify(slot int, q string) (v verdict) {
+	inText[slot].Store(q)
+	inflight[slot].Store(time.Now().UnixNano())
+	defer func() {
+		inflight[slot].Store(0)
+		if r := recover(); r != nil {
+			v.Panic = fmt.Sprint(r)
+		}
+	}()
+	idem, err := parser.IsQueryIdempotent(q)
+	v.Idem = idem
+	if err != nil {
+		v.Err = err.Error()
+	}
+	return
+}
+
+func handled(slot int, q string) (pan string) {
+	inText[slot].Store(q)
+	inflight[slot].Store(time.Now().UnixNano())
+	defer func() {
+		inflight[slot].Store(0)
+		if r := recover(); r != nil {
+			pan = fmt.Sprint(r)
+		}
+	}()
+	_, _, _ = parser.IsQueryHandled(parser.IdentifierFromString("ks1"), q)
+	_, _, _ = parser.IsQueryHandled(parser.IdentifierFromString("system"), q)
+	return
+}
+
+// ---------------------------------------------------------------------------------- table replay
+
+type sample struct {
+	Row      string   `json:"row"`
+	Cls      string   `json:"expected"`
+	Why      []string `json:"why,omitempty"`
+	Texts    []string `json:"texts"`
+	Verdicts []bool   `json:"verdicts"`
+	Errs     []string `json:"errors,omitempty"`
+}
+
+type group struct {
+	Key      string   `json:"key"`
+	Dir      string   `json:"dir"`
+	Rows     int      `json:"rows"`
+	Texts    int      `json:"texts"`
+	Feature  string   `json:"feature"`
+	Samples  []sample `json:"samples"`
+	FailSeen int      `json:"feature_fail_rows"`
+	PassSeen int      `json:"feature_pass_rows"`
+}
+
+type mutStats struct {
+	Mutants       int            `json:"mutants"`
+	Distinct      int            `json:"distinct"`
+	ByOp          map[string]int `json:"by_op"`
+	ParseErrors   int            `json:"parse_errors"`
+	AcceptedTrue  int            `json:"accepted_idempotent"`
+	AcceptedFalse int            `json:"accepted_not_idempotent"`
+	NonUTF8       int            `json:"non_utf8"`
+	HandledCalls  int            `json:"is_query_handled_calls"`
+	Samples       []string       `json:"samples"`
+}
+
+type result struct {
+	Rows          int                       `json:"rows"`
+	RowsDistinct  int                       `json:"rows_distinct"`
+	Spellings     []string                  `json:"spellings"`
+	Texts         int                       `json:"texts"`
+	TextsDistinct int                       `json:"texts_distinct"`
+	Nontrivial    int                       `json:"rows_nontrivial_distinct"`
+	ByClass       map[string]int            `json:"by_class"`
+	ByKindClass   map[string]map[string]int `json:"by_kind_class"`
+	ByWhy         map[string]int            `json:"by_reason"`
+	ByCost        map[string]int            `json:"by_cost"`
+	ClassVerdict  map[string]int            `json:"class_verdict_texts"`
+	NodeKinds     map[string]int            `json:"node_kinds_rendered"`
+	EdgeFeatures  int                       `json:"distinct_edge_features"`
+	MaxDepth      int                       `json:"max_term_depth"`
+	OpenTrue      int                       `json:"open_rows_reported_idempotent"`
+	OpenFalse     int                       `json:"open_rows_reported_not_idempotent"`
+	Groups        []*group                  `json:"groups"`
+	Totality      []*group                  `json:"totality_groups"`
+	Mut           mutStats                  `json:"mutants"`
+	Samples       []sample                  `json:"samples"`
+	Hang          string                    `json:"hang,omitempty"`
+	WallMs        int64                     `json:"wall_ms"`
+}
+
+type rowOutcome struct {
+	idx      int
+	texts    []string
+	sps      []spelling
+	verdicts []verdict
+	dir      string // "", unsound, incomplete, unstable, panic, err-but-true
+}
+
+func cmdTable(args []string) error {
+	fs := flag.NewFlagSet("table", flag.ExitOnError)
+	in := fs.String("in", "", "NDJSON rows exported by TLC")
+	out := fs.String("out", "-", "result JSON")
+	nmut := fs.Int("mutants", 100000, "total number of byte-level mutants")
+	fs.Parse(args)
+	t0 := time.Now()
+
+	var rows []*Row
+	seen := map[string]bool{}
+	total := 0
+	err := hutil.ReadJSONLines(*in, func(line []byte) error {
+		var r Row
+		if err := json.Unmarshal(line, &r); err != nil {
+			return fmt.Errorf("bad row %q: %v", string(line[:min(len(line), 200)]), err)
+		}
+		total++
+		k := r.Ast.String()
+		if seen[k] {
+			return nil
+		}
+		seen[k] = true
+		rows = append(rows, &r)
+		return nil
+	})
+	if err != nil {
+		return err
+	}
+	if len(rows) == 0 {
+		return fmt.Errorf("no rows in %s", *in)
+	}
+
+	res := &result{Rows: total, RowsDistinct: len(rows), ByClass: map[string]int{}, ByKindClass: map[string]map[string]int{},
+		ByWhy: map[string]int{}, ByCost: map[string]int{}, ClassVerdict: map[string]int{}, NodeKinds: map[string]int{}}
+	for _, s := range spellings {
+		res.Spellings = append(res.Spellings, s.name)
+	}
+
+	nw := runtime.NumCPU()
+	if nw > 32 {
+		nw = 32
+	}
+	// watchdog: a call that does not return within 20 s is a hang
+	hang := make(chan string, 1)
+	go func() {
+		for {
+			time.Sleep(500 * time.Millisecond)
+			now := time.Now().UnixNano()
+			for i := 0; i < nw; i++ {
+				if st := inflight[i].Load(); st != 0 && now-st > int64(20*time.Second) {
+					q, _ := inText[i].Load().(string)
+					select {
+					case hang <- q:
+					default:
+					}
+					return
+				}
+			}
+		}
+	}()
+
+	outcomes := make([]rowOutcome, len(rows))
+	var wg sync.WaitGroup
+	var next atomic.Int64
+	done := make(chan struct{})
+	for wk := 0; wk < nw; wk++ {
+		wg.Add(1)
+		go func(slot int) {
+			defer wg.Done()
+			for {
+				i := int(next.Add(1)) - 1
+				if i >= len(rows) {
+					return
+				}
+				r := rows[i]
+				o := rowOutcome{idx: i}
+				for si := range spellings {
+					t, sp := render(r.Ast, si, int64(i))
+					o.texts = append(o.texts, t)
+					o.sps = append(o.sps, sp)
+				}
+				for _, t := range o.texts {
+					o.verdicts = append(o.verdicts, classify(slot, t))
+				}
+				outcomes[i] = o
+			}
+		}(wk)
+	}
+	go func() { wg.Wait(); close(done) }()
+	select {
+	case <-done:
+	case q := <-hang:
+		res.Hang = q
+		res.Totality = append(res.Totality, &group{Key: "total:hang:IsQueryIdempotent", Dir: "hang", Rows: 1,
+			Samples: []sample{{Texts: []string{q}}}})
+		res.WallMs = time.Since(t0).Milliseconds()
+		return hutil.WriteJSON(*out, res)
+	}
+
+	// ---- compare with the expected class
+	textSeen := map[string]bool{}
+	nontrivial := map[string]bool{}
+	stats := newFeatStats()
+	var failing []*rowOutcome
+	edgeSeen := map[string]bool{}
+	for i := range outcomes {
+		o := &outcomes[i]
+		r := rows[i]
+		res.ByClass[r.Cls]++
+		kc := res.ByKindClass[r.Ast.K]
+		if kc == nil {
+			kc = map[string]int{}
+			res.ByKindClass[r.Ast.K] = kc
+		}
+		kc[r.Cls]++
+		res.ByCost[fmt.Sprint(r.Cost)]++
+		for _, w := range r.Wit {
+			res.ByWhy[w.Why]++
+		}
+		countKinds(r.Ast, res.NodeKinds)
+		if d := termDepth(r.Ast); d > res.MaxDepth {
+			res.MaxDepth = d
+		}
+		for _, f := range allEdges(r.Ast) {
+			edgeSeen[f.levels[4]] = true
+		}
+		for _, t := range o.texts {
+			res.Texts++
+			textSeen[t] = true
+		}
+		if r.Cost >= 1 {
+			nontrivial[o.texts[0]] = true
+		}
+		anyTrue, anyFalse, anyPanic, errTrue, anyErr := false, false, false, false, false
+		for _, v := range o.verdicts {
+			res.ClassVerdict[r.Cls+"->"+fmt.Sprint(v.Idem)]++
+			if v.Panic != "" {
+				anyPanic = true
+			}
+			if v.Err != "" && v.Idem {
+				errTrue = true
+			}
+			if v.Err != "" {
+				anyErr = true
+			}
+			if v.Idem {
+				anyTrue = true
+			} else {
+				anyFalse = true
+			}
+		}
+		switch {
+		case anyPanic:
+			o.dir = "panic"
+		case errTrue:
+			o.dir = "err-but-true"
+		case r.Cls == "F" && anyTrue:
+			o.dir = "unsound"
+		case r.Cls == "T" && anyFalse:
+			o.dir = "incomplete"
+		case anyTrue && anyFalse:
+			o.dir = "unstable"
+		}
+		if r.Cls == "O" {
+			if anyTrue {
+				res.OpenTrue++
+			} else {
+				res.OpenFalse++
+			}
+		}
+		stats.account(r, o.dir, !anyErr)
+		if o.dir != "" {
+			failing = append(failing, o)
+		}
+	}
+	res.TextsDistinct = len(textSeen)
+	res.Nontrivial = len(nontrivial)
+	res.EdgeFeatures = len(edgeSeen)
+
+	// ---- group the failing rows under stable keys
+	groups := map[string]*group{}
+	for _, o := range failing {
+		r := rows[o.idx]
+		key, feat, fc, pc := stats.key(r, o)
+		g := groups[key]
+		if g == nil {
+			g = &group{Key: key, Dir: o.dir, Feature: feat, FailSeen: fc, PassSeen: pc}
+			groups[key] = g
+		}
+		g.Rows++
+		for _, v := range o.verdicts {
+			if (o.dir == "unsound" && v.Idem) || (o.dir == "incomplete" && !v.Idem) || o.dir == "unstable" || v.Panic != "" || (v.Err != "" && v.Idem) {
+				g.Texts++
+			}
+		}
+		if len(g.Samples) < 4 {
+			g.Samples = append(g.Samples, mkSample(r, o))
+		}
+	}
+	for _, g := range groups {
+		if g.Dir == "panic" || g.Dir == "err-but-true" {
+			res.Totality = append(res.Totality, g)
+		} else {
+			res.Groups = append(res.Groups, g)
+		}
+	}
+	sort.Slice(res.Groups, func(i, j int) bool { return res.Groups[i].Key < res.Groups[j].Key })
+
+	// ---- samples of what was explored (one per class, spread over the table)
+	for _, cls := range []string{"F", "T", "O"} {
+		n := 0
+		for i := len(rows) / 3; i < len(rows) && n < 2; i += 1 + len(rows)/97 {
+			if rows[i].Cls == cls && outcomes[i].dir == "" {
+				res.Samples = append(res.Samples, mkSample(rows[i], &outcomes[i]))
+				n++
+			}
+		}
+	}
+
+	// ---- totality on arbitrary bytes
+	if *nmut > 0 {
+		tg := runMutants(rows, outcomes, *nmut, nw, &res.Mut, hang)
+		res.Totality = append(res.Totality, tg...)
+	}
+	sort.Slice(res.Totality, func(i, j int) bool { return res.Totality[i].Key < res.Totality[j].Key })
+	res.WallMs = time.Since(t0).Milliseconds()
+	return hutil.WriteJSON(*out, res)
+}
+
+func mkSample(r *Row, o *rowOutcome) sample {
+	s := sample{Row: r.Ast.String(), Cls: r.Cls, Texts: o.texts}
+	for _, w := range r.Wit {
+		s.Why = append(s.Why, w.Why)
+	}
+	anyErr := false
+	for _, v := range o.verdicts {
+		s.Verdicts = append(s.Verdicts, v.Idem)
+		e := v.Err
+		if v.Panic != "" {
+			e = "PANIC " + v.Panic
+		}
+		if e != "" {
+			anyErr = true
+		}
+		s.Errs = append(s.Errs, e)
+	}
+	if !anyErr {
+		s.Errs = nil
+	}
+	return s
+}
+
+func countKinds(n *Node, m map[string]int) {
+	k := n.K
+	switch n.K {
+	case "op", "rel", "if", "delop", "batch", "using", "json", "garbage", "truncated", "prim", "bind", "cast", "select", "ddl", "other":
+		k += ":" + n.A
+	case "fn":
+		k += ":" + n.A
+		if len(n.C) > 0 {
+			k += "/args"
+		}
+	}
+	m[k]++
+	for _, c := range n.C {
+		countKinds(c, m)
+	}
+}
+
+func isTerm(n *Node) bool {
+	switch n.K {
+	case "int", "prim", "bind", "fn", "list", "set", "map", "udt", "tuple", "cast", "colref":
+		return true
+	}
+	return false
+}
+
+func termDepth(n *Node) int {
+	d := 0
+	for _, c := range n.C {
+		if x := termDepth(c); x > d {
+			d = x
+		}
+	}
+	if isTerm(n) {
+		d++
+	}
+	return d
+}
+
+// ---------------------------------------------------------------------------------- classify (replay)
+
+func cmdClassify(args []string) error {
+	fs := flag.NewFlagSet("classify", flag.ExitOnError)
+	in := fs.String("in", "", "JSON array of strings")
+	out := fs.String("out", "-", "result JSON")
+	fs.Parse(args)
+	b, err := os.ReadFile(*in)
+	if err != nil {
+		return err
+	}
+	var texts []string
+	if err := json.Unmarshal(b, &texts); err != nil {
+		return err
+	}
+	type one struct {
+		Text  string `json:"text"`
+		Idem  bool   `json:"idempotent"`
+		Err   string `json:"error,omitempty"`
+		Panic string `json:"panic,omitempty"`
+	}
+	var res []one
+	for _, t := range texts {
+		v := classify(0, t)
+		res = append(res, one{t, v.Idem, v.Err, v.Panic})
+	}
+	return hutil.WriteJSON(*out, res)
 }
